@@ -30,6 +30,7 @@ import (
 
 var c11Stages = []Stage{
 	{Name: "lib", Pkg: "./pkg/station/lib", Run: "^TestVerifC11Lib$", Drivers: []string{"lib"}, Exports: []string{"lib", "cdtls", "dnat"}, Netns: true},
+	{Name: "coldstart", Pkg: "./pkg/station/lib", Run: "^TestVerifC11ColdStart$", Drivers: []string{"lib"}, Exports: []string{"lib", "cdtls", "dnat"}, Netns: true},
 	{Name: "burst", Pkg: "./pkg/station/lib", Run: "^TestVerifC11Burst$", Drivers: []string{"lib"}, Exports: []string{"lib", "cdtls", "dnat"}, Netns: true},
 	{Name: "app", Dir: "cmd/application", Pkg: ".", Run: "^TestVerifC11Handler$", Drivers: []string{"app"}, Exports: []string{"lib"}},
 	{Name: "validflights", Dir: "cmd/application", Pkg: ".", Run: "^TestVerifC11ValidFlights$", Drivers: []string{"app"}, Exports: []string{"lib"}},
